@@ -45,6 +45,10 @@ CHECKS = {
             "Builder-contract monitor over all 45 CODE_API_MAP entries with committed argument tables (in-domain sweeps and out-of-domain probes: indexes in/out of range, temperatures on the 0.01 grid and beyond, mode x until x duration matrices, leap-day/DST/year-boundary datetimes, names, fan modes/params, all 256 OpenTherm ids, fragment numbers/counts, bind offers/accepts/confirms). Every call that returns a command is judged: verb|code equals its API-map key; the library's own decoder (Message._from_cmd) accepts the frame; every value asked for is found in the decoded payload to wire resolution. A refusal is always allowed.",
             "Argument tables are the only hand-written spec (domains cited from the constructors' own checks/docstrings); values that collide with wire sentinels are not probed; an RQ that decodes to {} by design has its index compared on the wire; 15 recorded findings (HVAC/WIP constructors, OpenTherm ids unknown to the decoder, DHW countdown/temporary encodings ...).",
             "contract monitor (advertised verb/code, decoder acceptance, decode-back equality) over swept argument tables", "§3 C03"),
+    "C10": ("exploration",
+            "Delivery / creation / write monitors against a 10-line reference rule written from the statement, over a sweep of configurations (known/block lists disjoint, overlapping, empty, with/without explicit HGI, second HGI, gateway block-listed, enforcement on/off, the 'enforced but empty' rule) x packets of the three address shapes with src/dst from every id class, on a real port Gateway (fake serial + virtual air) and a real file Gateway: messages seen by an application handler, devices created (incl. ids only *named* in a 000C payload), and frames that reach the serial port from async_send_cmd().",
+            "Reference rule is the oracle; only packets the decoder accepts on their own are used; the hard-wired 01:000001 id is never generated; 'refused though allowed' is judged only when the refusal text names the device filter.",
+            "reference-rule differential monitor over configuration x packet sweeps on the real gateway stacks", "§3 C10"),
 }
 NOT_APPLICABLE = []
 
